@@ -301,15 +301,15 @@ def _c09_specs(tier):
 
 def _c08_specs(tier):
     if tier == 'quick':
-        return [('c08-all-len2', ['--set', 'all', '--len', '2']), ('c08-proto-len4', ['--set', 'proto', '--len', '4']),
+        return [('c08-all-len1', ['--set', 'all', '--len', '1'], 4), ('c08-core-len2', ['--set', 'core', '--len', '2']), ('c08-proto-len4', ['--set', 'proto', '--len', '4']),
                 ('c08-two-core-len2', ['--set', 'core', '--len', '2', '--two', '1'])] + [
-                    ('c08-synth-%s-proto-len3' % sc, ['--set', 'proto', '--len', '3', '--synth', sc], 1) for sc in ('semi', 'ms')] + [
+                    ('c08-synth-%s-proto-len3' % sc, ['--set', 'proto', '--len', '3', '--synth', sc], 3) for sc in ('semi', 'ms')] + [
                     # a cap on active HMMs that the probe grammar exceeds: the search narrows its beams dynamically
-                    ('c08-maxhmmpf5-proto-len3', ['--set', 'proto', '--len', '3', '--maxhmmpf', '5'], 2),
-                    ('c08-maxhmmpf3-core-len2', ['--set', 'core', '--len', '2', '--maxhmmpf', '3'], 2),
-                    ('c08-nofiller-proto-len3', ['--set', 'proto', '--len', '3', '--cfg', 'fsgusefiller=no'], 1),
-                    ('c08-boot-nogram-len3', ['--set', 'boot', '--len', '3', '--nogram', '1'], 2)]
-    return [('c08-all-len3', ['--set', 'all', '--len', '3']), ('c08-core-len3', ['--set', 'core', '--len', '3']),
+                    ('c08-maxhmmpf5-proto-len3', ['--set', 'proto', '--len', '3', '--maxhmmpf', '5'], 4),
+                    ('c08-maxhmmpf3-core-len2', ['--set', 'core', '--len', '2', '--maxhmmpf', '3'], 4),
+                    ('c08-nofiller-proto-len3', ['--set', 'proto', '--len', '3', '--cfg', 'fsgusefiller=no'], 4),
+                    ('c08-boot-nogram-len3', ['--set', 'boot', '--len', '3', '--nogram', '1'], 10)]
+    return [('c08-all-len2', ['--set', 'all', '--len', '2']), ('c08-all-len3', ['--set', 'all', '--len', '3']), ('c08-core-len3', ['--set', 'core', '--len', '3']),
             ('c08-two-core-len3', ['--set', 'core', '--len', '3', '--two', '1'])] + [
                 ('c08-synth-%s-core-len2' % sc, ['--set', 'core', '--len', '2', '--synth', sc], 2) for sc in ('semi', 'ms')] + [
                 ('c08-maxhmmpf5-proto-len4', ['--set', 'proto', '--len', '4', '--maxhmmpf', '5'], 8),
@@ -440,7 +440,7 @@ def _c18_runs(tier):
     return r
 
 
-SES_ASSUME = ['operation alphabet of 43 public-API calls (see harness/mc_session.c); audio = excerpts of tests/data/goforward.raw, zeros, and no samples; '
+SES_ASSUME = ['operation alphabet of 46 public-API calls (see harness/mc_session.c); audio = excerpts of tests/data/goforward.raw, zeros, and no samples; '
               'REAL front end and REAL acoustic scorer (no injected scores)',
               'grammar loading, dictionary additions and reinit are only issued between utterances (the documented protocol); every other call is issued in every state',
               'small dictionary (9 words) on model en-us; each history runs in a child forked from one initialised decoder',
@@ -525,11 +525,15 @@ CHECKS = {
         runs={'quick': _ses_runs('C08', _c08_specs('quick')), 'thorough': _ses_runs('C08', _c08_specs('thorough'))},
         budget_s={'quick': 600, 'thorough': 5400},
         coverage=ex_cov,
-        rule='every API history up to length 2 over all 42 operations and up to length 4 over the protocol core (thorough: 3 / core 3), '
-             'followed by a probe: the full goforward.raw utterance decoded in batch mode WITHOUT resetting channel normalisation and then '
-             'in streaming mode after decoder_set_cmn(fixed); the digest (hypothesis, score, every segment with scores, frame count, '
-             'lattice node/link counts and score sum, first 3 N-best entries) must equal the digest of a fresh decoder (with the same '
-             'dictionary additions); column --two: a second decoder does its own utterance between the operations and both must probe equal',
+        rule='every API history up to length 1 over all 46 operations, 2 over the 18-operation core, 4 over the 7-operation protocol core, 3 '
+             'over the boot set from a grammar-less decoder (thorough: 2-3 / 3 / 4), also on synthetic scorers, with a cap on active HMMs '
+             '(maxhmmpf 3/5/10) and without filler transitions; followed by a probe in TWO orders, each on its own copy of the process '
+             '(fork) and compared with the same order on a fresh decoder: (1) whole-utterance decodes first, WITHOUT any reset (an excerpt '
+             'with the length of the history utterance but other content, 1.9 s of the recording, another excerpt), then streaming in '
+             '256-sample blocks after decoder_set_cmn(full vector); (2) decoder_set_cmn with a SHORT list first, then two streamed utterances '
+             'and the normalisation state as text. Digest = hypothesis, score, every segment with scores, frame count, lattice node/link '
+             'counts and score sum, first 3 N-best entries, the three-level alignment. The probe grammar is reloaded only when the history '
+             'left another one. Column --two: a second decoder does its own utterance between the operations and both must probe equal',
         assumptions=SES_ASSUME + ['dither off (it uses a process-global random generator)'] + TRUST,
     ),
     'C09': dict(
@@ -538,8 +542,9 @@ CHECKS = {
         runs={'quick': _ses_runs('C09', _c09_specs('quick')), 'thorough': _ses_runs('C09', _c09_specs('thorough'))},
         budget_s={'quick': 600, 'thorough': 5400},
         coverage=ex_cov,
-        rule='every API history up to length 2 over all 42 operations, length 3 over the 18-operation core, length 5 over the 7-operation '
-             'protocol core {start, process, end, hyp, seg, alignment, free} (thorough: 3/4/6), each in a forked child under ASan+UBSan with '
+        rule='every API history up to length 2 over all 46 operations, length 3 over the 18-operation core, length 5 over the 7-operation '
+             'protocol core {start, process, end, hyp, seg, alignment, free}, length 4 over the boot set from a grammar-less decoder and over '
+             'the lattice set without filler transitions / without alternates and best-path (thorough: 3/4/6/5), also on synthetic scorers, each in a forked child under ASan+UBSan with '
              'asserts on: outcome must be a normal return (no sanitizer report, assertion, exit, hang), out-of-order calls must return the '
              'documented error value, and after the last reference is released the allocator must be back at the baseline measured before '
              'the decoder was created (leaks are attributed to their allocation site with a recoverable LeakSanitizer pass)',
